@@ -59,7 +59,13 @@ RULE = ('bases: generated reference (taxonomy depth 1-6 with chains and '
         'non-leaf level) handed to 2-3 run_mapping calls that alternate between '
         'the reference without / with that level (files re-written in place), '
         'sometimes toggling flatten, each call compared with a fresh dict on '
-        'fresh files; every run: the config dict is unchanged afterwards.  non-trivial = the run tree of the pair (reduced / '
+        'fresh files; every run: the config dict is unchanged afterwards; order '
+        'family (always in quick): 4- and 5-level taxonomies whose children '
+        'names sort before those of the children of earlier siblings, every '
+        'middle level with >= 2 levels beneath it (and the top level) dropped, '
+        'bootstrap factor 0.3 / 0.5, 3-8 iterations, cells spread over all the '
+        'parents above the leaves, run B on the rebuilt and sibling-shuffled '
+        'reduced taxonomy.  non-trivial = the run tree of the pair (reduced / '
         'one-level / stored) has a parent with >= 2 children, i.e. a vote is '
         'taken; distinct by canonical JSON of (kind, level, problem, config)')
 TRUSTED = ['anndata/h5py write and read back the query and the stats file as '
@@ -742,9 +748,94 @@ def check_base(ctx, problem, cfg, mode='replay', all_levels=True):
                                         prob=0.3), 'flatten_drop', level)
 
 
+def gen_order_problem(rng, depth):
+    """aimed at the ORDER in which parents are visited (and the RNG consumed):
+    >= 4 levels; under every node the children carry names that sort BEFORE the
+    names of the children of its earlier siblings, so that concatenating the
+    grand-children of a parent is never in sorted order; cells resembling
+    leaves spread over all the parents of the level above the leaves"""
+    names = rng.choice([['class', 'subclass', 'supertype', 'cluster', 'leafy'],
+                        ['L1', 'L2', 'L3', 'L4', 'L5']])[:depth]
+    if depth == 4 and rng.random() < 0.5:
+        names = ['class', 'subclass', 'supertype', 'cluster']
+    tree = {'hierarchy': list(names)}
+    for l in names:
+        tree[l] = {}
+    counter = [9000]
+
+    def fresh(k, prefix):
+        # k names, ascending among themselves, all smaller than earlier ones
+        counter[0] -= k
+        return ['%s%04d' % (prefix, counter[0] + i) for i in range(k)]
+
+    current = fresh(rng.randint(1, 2), 'n0_')
+    for n in current:
+        tree[names[0]][n] = []
+    for i in range(depth - 1):
+        nxt = []
+        for n in current:
+            kids = fresh(2 if i < depth - 2 else rng.randint(2, 3),
+                         'n%d_' % (i + 1))
+            tree[names[i]][n] = kids
+            nxt += kids
+        for k in nxt:
+            tree[names[i + 1]][k] = []
+        current = nxt
+    leaves = list(tree[names[-1]].keys())
+    n_cells = rng.randint(10, 14)
+    problem = U.make_problem(rng, tree=tree, n_genes=rng.randint(14, 18),
+                             n_cells=n_cells)
+    # every list long enough for bootstrap subsets to differ
+    shared = [g for g in problem['ref_genes'] if g in problem['query_genes']]
+    for k in problem['markers']:
+        problem['markers'][k] = rng.sample(shared, min(len(shared),
+                                                       rng.randint(7, 10)))
+    col = {g: i for i, g in enumerate(problem['ref_genes'])}
+    order = list(leaves)
+    rng.shuffle(order)
+    X = []
+    for j in range(n_cells):
+        leaf = order[j % len(order)]
+        mean = [x / problem['leaf_n'][leaf] for x in problem['leaf_sum'][leaf]]
+        scale = rng.uniform(5.0, 30.0)
+        row = [float(max(0, int(round(((2.0 ** mean[col[g]] - 1.0) * scale
+                                       if g in col else rng.randrange(40))
+                                      + rng.uniform(-1.5, 1.5)))))
+               for g in problem['query_genes']]
+        if not any(row):
+            row[0] = 1.0
+        X.append(row)
+    problem['X'] = X
+    return problem
+
+
+def run_order_family(ctx, n_bases):
+    """always part of the quick tier: drop every middle level that has >= 2
+    levels beneath it, bootstrap factor 0.3 / 0.5, several iterations, against
+    the independently rebuilt AND sibling-shuffled reduced taxonomy"""
+    rng = ctx.rng
+    for i in range(n_bases):
+        depth = 4 if i % 2 == 0 else 5
+        problem = gen_order_problem(rng, depth)
+        h = problem['tree']['hierarchy']
+        cfg = U.gen_config(rng, problem, flatten=False)
+        cfg.update(flatten=False, drop_level=None,
+                   bootstrap_factor=rng.choice([0.3, 0.5]),
+                   bootstrap_iteration=rng.randint(3, 8),
+                   n_runners_up=rng.randint(1, 3))
+        for level in h[1:-2]:
+            ctx.count('order-family:depth-%d' % depth)
+            check_pair(ctx, problem, cfg, 'drop', level,
+                       share=[False, True, rng.randrange(1, 10 ** 6)])
+        # the top level as well (parents below it: the same question)
+        check_pair(ctx, problem, cfg, 'drop', h[0],
+                   share=[False, True, rng.randrange(1, 10 ** 6)])
+
+
 def run(ctx):
     quick = ctx.tier == 'quick'
     c01.run_corpus(ctx, 'C17', replay)
+    run_order_family(ctx, 2 if quick else 12)
     for i in range(10 if quick else 90):
         problem, cfg, mode = gen_base(ctx.rng, i)
         check_base(ctx, problem, cfg, mode, all_levels=not quick)
